@@ -175,3 +175,137 @@ Proof. cbn. rewrite srun_wrapped. split; reflexivity. Qed.
 (* the buffer is empty after a commit even when a write of the commit fails *)
 Lemma commit_clears_cache dd s : cache (fst (scommit dd s)) = [].
 Proof. unfold scommit. destruct (apply_cache dd (cache s) (wrapped s)). reflexivity. Qed.
+
+(* ------------------------------------------------------------------ *)
+(* A ScratchDB whose wrapped database is itself a ScratchDB (a squash_changes block opened on
+   a batch trie): the inner layer over [store_of (read_view s1)], committed into the layer s1
+   by [sreplay]. *)
+
+Lemma aget_overlay_fold (c : amap (option bytes)) : NoDup (akeys c) -> forall (acc : amap bytes) k,
+  aget (fold_left (fun (acc : amap bytes) (e : bytes * option bytes) =>
+                     match snd e with Some v => aset acc (fst e) v | None => acc end) c acc) k
+  = match aget c k with Some (Some v) => Some v | _ => aget acc k end.
+Proof.
+  induction c as [|[k0 a] c IH]; intros Hnd acc k; cbn [fold_left aget]; [reflexivity|].
+  cbn [akeys map fst] in Hnd. inversion Hnd as [|? ? Hnotin Hnd']; subst.
+  rewrite (IH Hnd'). cbn [snd fst].
+  destruct (bytes_eqb k k0) eqn:E.
+  - apply bytes_eqb_eq in E. subst k0. rewrite (aget_notin c k Hnotin).
+    destruct a as [v|]; [|reflexivity]. rewrite aget_aset, bytes_eqb_refl. reflexivity.
+  - destruct (aget c k) as [[v|]|]; try reflexivity;
+      destruct a as [v0|]; try reflexivity; rewrite aget_aset, E; reflexivity.
+Qed.
+
+(* what reads through a layer see: its buffered writes, else (also at a DELETED marker) the wrapped store *)
+Lemma aget_read_view s k : NoDup (akeys (cache s)) ->
+  aget (read_view s) k = match aget (cache s) k with
+                         | Some (Some v) => Some v
+                         | _ => aget (cells (wrapped s)) k
+                         end.
+Proof. intro Hnd. unfold read_view. apply aget_overlay_fold. exact Hnd. Qed.
+
+Lemma store_get_read_view s k : NoDup (akeys (cache s)) ->
+  store_get (store_of (read_view s)) k = sget s k.
+Proof.
+  intro Hnd. unfold store_get, store_of. cbn [cells]. rewrite (aget_read_view s k Hnd), sget_spec.
+  unfold store_get. destruct (aget (cache s) k) as [[v|]|]; reflexivity.
+Qed.
+
+Lemma sreplay_spec dd c : NoDup (akeys c) -> forall s,
+  wrapped (sreplay dd c s) = wrapped s /\
+  forall k, aget (cache (sreplay dd c s)) k =
+            match aget c k with
+            | Some (Some v) => Some (Some v)
+            | Some None => if dd then Some None else aget (cache s) k
+            | None => aget (cache s) k
+            end.
+Proof.
+  induction c as [|[k0 a] c IH]; intros Hnd s; cbn [sreplay aget]; [split; reflexivity|].
+  cbn [akeys map fst] in Hnd. inversion Hnd as [|? ? Hnotin Hnd']; subst.
+  assert (Hstep : forall s', wrapped s' = wrapped s ->
+            (forall k, aget (cache s') k = if bytes_eqb k k0 then
+                                             match a with
+                                             | Some v => Some (Some v)
+                                             | None => if dd then Some None else aget (cache s) k
+                                             end
+                                           else aget (cache s) k) ->
+            wrapped (sreplay dd c s') = wrapped s /\
+            forall k, aget (cache (sreplay dd c s')) k =
+                      if bytes_eqb k k0
+                      then match a with
+                           | Some v => Some (Some v)
+                           | None => if dd then Some None else aget (cache s) k
+                           end
+                      else match aget c k with
+                           | Some (Some v) => Some (Some v)
+                           | Some None => if dd then Some None else aget (cache s) k
+                           | None => aget (cache s) k
+                           end).
+  { intros s' Hw Hc. destruct (IH Hnd' s') as [Hw' Hc']. split; [rewrite Hw'; exact Hw|].
+    intro k. rewrite (Hc' k), (Hc k).
+    destruct (bytes_eqb k k0) eqn:E.
+    - apply bytes_eqb_eq in E. subst k0. rewrite (aget_notin c k Hnotin). reflexivity.
+    - reflexivity. }
+  assert (Hfin : forall s', wrapped s' = wrapped s ->
+            (forall k, aget (cache s') k = if bytes_eqb k k0 then
+                                             match a with
+                                             | Some v => Some (Some v)
+                                             | None => if dd then Some None else aget (cache s) k
+                                             end
+                                           else aget (cache s) k) ->
+            wrapped (sreplay dd c s') = wrapped s /\
+            forall k, aget (cache (sreplay dd c s')) k =
+                      match (if bytes_eqb k k0 then Some a else aget c k) with
+                      | Some (Some v) => Some (Some v)
+                      | Some None => if dd then Some None else aget (cache s) k
+                      | None => aget (cache s) k
+                      end).
+  { intros s' Hw Hc. destruct (Hstep s' Hw Hc) as [A B]. split; [exact A|].
+    intro k. rewrite (B k). destruct (bytes_eqb k k0); [|reflexivity]. destruct a; reflexivity. }
+  destruct a as [v|].
+  - apply Hfin; [reflexivity|]. intro k. unfold sset. cbn [cache]. rewrite aget_aset. reflexivity.
+  - destruct dd.
+    + apply Hfin; [reflexivity|]. intro k. unfold sdel. cbn [cache]. rewrite aget_aset. reflexivity.
+    + apply Hfin; [reflexivity|]. intro k. destruct (bytes_eqb k k0) eqn:E; reflexivity.
+Qed.
+
+Lemma sreplay_nodup dd c : forall s, NoDup (akeys (cache s)) -> NoDup (akeys (cache (sreplay dd c s))).
+Proof.
+  induction c as [|[k0 a] c IH]; intros s Hnd; cbn [sreplay]; [exact Hnd|].
+  destruct a as [v|]; [|destruct dd].
+  - apply IH. unfold sset. cbn [cache]. apply akeys_aset_nodup. exact Hnd.
+  - apply IH. unfold sdel. cbn [cache]. apply akeys_aset_nodup. exact Hnd.
+  - apply IH. exact Hnd.
+Qed.
+
+(* the inner block: reads go through both layers *)
+Lemma nested_read_spec s1 ops k : NoDup (akeys (cache s1)) ->
+  sget (fst (srun (scratch_new (store_of (read_view s1))) ops)) k =
+  match last_action ops k with
+  | Some (Some v) => Ok v
+  | Some None | None => sget s1 k
+  end.
+Proof. intro Hnd. rewrite read_spec, (store_get_read_view s1 k Hnd). reflexivity. Qed.
+
+(* normal exit of the inner block: its buffer is replayed into the enclosing layer's buffer — last write wins,
+   deletes become DELETED markers there iff requested — and the enclosing layer's own wrapped store is not
+   touched; the inner buffer ends empty by commit_clears_cache *)
+Lemma nested_commit_spec s1 ops dd : NoDup (akeys (cache s1)) ->
+  let s2 := fst (srun (scratch_new (store_of (read_view s1))) ops) in
+  let s1' := sreplay dd (cache s2) s1 in
+  wrapped s1' = wrapped s1 /\ NoDup (akeys (cache s1')) /\
+  forall k, aget (cache s1') k =
+            match last_action ops k with
+            | Some (Some v) => Some (Some v)
+            | Some None => if dd then Some None else aget (cache s1) k
+            | None => aget (cache s1) k
+            end.
+Proof.
+  intros Hnd s2 s1'.
+  assert (Hnd2 : NoDup (akeys (cache s2))).
+  { unfold s2. apply srun_cache_nodup. constructor. }
+  destruct (sreplay_spec dd (cache s2) Hnd2 s1) as [Hw Hc].
+  split; [exact Hw|]. split; [apply sreplay_nodup; exact Hnd|].
+  intro k. unfold s1'. rewrite (Hc k). unfold s2. rewrite srun_cache. unfold overlay.
+  cbn [scratch_new cache aget]. destruct (last_action ops k) as [[v|]|]; reflexivity.
+Qed.
